@@ -32,6 +32,11 @@ def one(name):
                 st = r.status
                 if st == 'violation' and all(driver.fn_proof_perturbed(r.unit, f) or not driver.fn_was_changed(r.unit, f) for f, _ in r.failed):
                     st = 'undecided(policy)'
+                # functions whose contract is also a complete CBMC harness (kani/k_bits.rs) are decided there by ./check; this unit-level
+                # test only notes it
+                import kani_run, re as _re
+                if st == 'violation' and all(kani_run.FALLBACK.get(_re.sub(r'^.*?([A-Za-z_0-9]+::[A-Za-z_0-9]+|[a-z_0-9]+)$', r'\1', f)) for f, _ in r.failed):
+                    st = 'second-back-end(kani decides)'
                 out.append((u, st, (r.reason or '')[:160] + ' failed=' + str([f for f, _ in r.failed][:4]) if r.status != 'ok' else 'merged=%s' % merged[:3]))
     finally:
         shutil.rmtree(d, ignore_errors=True)
